@@ -124,7 +124,7 @@ pub fn worker(prop: &str, seed: u64, w: u64, nw: u64, count: u64, out_path: &str
         }
         out.evaluations += 1;
         out.runs += ev.runs;
-        out.sim_ns += ev.sim_ns;
+        out.sim_ns = out.sim_ns.saturating_add(ev.sim_ns);
         out.sim_calls += ev.sim_calls;
         let h = crate::rng::fnv64(ev.signature.as_bytes());
         // the sets are only a measure of variety: stop growing them at 250k entries per worker
@@ -284,7 +284,7 @@ pub fn check(prop: &str, tier: &str) -> i32 {
         let v: Value = serde_json::from_str(&s).unwrap_or(Value::Null);
         merged.evaluations += v["evaluations"].as_u64().unwrap_or(0);
         merged.runs += v["runs"].as_u64().unwrap_or(0);
-        merged.sim_ns += v["sim_ns"].as_u64().unwrap_or(0);
+        merged.sim_ns = merged.sim_ns.saturating_add(v["sim_ns"].as_u64().unwrap_or(0));
         merged.sim_calls += v["sim_calls"].as_u64().unwrap_or(0);
         merged.stopped_early |= v["stopped_early"].as_bool().unwrap_or(false);
         for h in v["sigs"].as_array().cloned().unwrap_or_default() {
